@@ -159,15 +159,33 @@ def thresholdFromTaxBase (ε : Rat) (s : Scale) (xs : List Rat) : Except String 
   let idx ← bracketIndices ε 1 none s xs
   idx.mapM (pyIndex (thresholds s))
 
-/-- `rate_from_bracket_indice(bracket_indice)` -/
+/-- `rate_from_bracket_indice(bracket_indice)` (`.max()` of an empty array raises) -/
 def rateFromBracketIndice (s : Scale) (idx : List Int) : Except String (List Rat) :=
-  if idx.any (fun i => decide (i > (s.length : Int) - 1)) then .error "IndexError"
+  if idx.isEmpty then .error "ValueError: zero-size array"
+  else if idx.any (fun i => decide (i > (s.length : Int) - 1)) then .error "IndexError"
   else idx.mapM (pyIndex (rates s))
 
 /-- `rate_from_tax_base(tax_base)` -/
 def rateFromTaxBase (ε : Rat) (s : Scale) (xs : List Rat) : Except String (List Rat) := do
   let idx ← bracketIndices ε 1 none s xs
   rateFromBracketIndice s idx
+
+/-! ### an array of factors (`numpy.ones(len(tax_base)) * factor`): row `j` of `thresholds1` is
+scaled by `factor[j] + ε_j`, so element `j` is the scalar computation with its own factor -/
+
+def calcMRVecF (efs : List (Rat × Rat)) (rd : Option Nat) (s : Scale) (xs : List Rat) : Except String (List Rat) :=
+  if efs.length ≠ xs.length then .error "ValueError: operands could not be broadcast together"
+  else .ok (List.zipWith (fun ef x => calcMR ef.1 ef.2 rd s x) efs xs)
+
+def bracketIndicesF (efs : List (Rat × Rat)) (rd : Option Nat) (s : Scale) (xs : List Rat) : Except String (List Int) :=
+  if s.isEmpty then .error "EmptyArgumentError: thresholds"
+  else if xs.isEmpty then .error "EmptyArgumentError: tax_base"
+  else if efs.length ≠ xs.length then .error "ValueError: operands could not be broadcast together"
+  else .ok (List.zipWith (fun ef x => bracketIndex ef.1 ef.2 rd s x) efs xs)
+
+def marginalRatesF (efs : List (Rat × Rat)) (rd : Option Nat) (s : Scale) (xs : List Rat) : Except String (List Rat) := do
+  let idx ← bracketIndicesF efs rd s xs
+  idx.mapM (pyIndex (rates s))
 
 /-! ## amount scales and the linear average-rate scale -/
 
